@@ -13,7 +13,7 @@ ToSet(s) == {s[i] : i \in DOMAIN s}
 
 TInit == /\ l = 1
          /\ objs = <<>>
-         /\ res = "init" /\ last = [op |-> "init"] /\ hist = <<>>
+         /\ res = Res("init", TRUE, "", {}) /\ last = Op("init", "", <<>>, "", <<>>) /\ hist = <<>>
 
 TNext == /\ l <= Len(Trace)
          /\ l' = l + 1
